@@ -182,7 +182,27 @@ def run_driver(requests):
         lines.pop()
     if len(lines) != len(requests):
         raise RuntimeError("driver returned %d lines for %d requests" % (len(lines), len(requests)))
-    return [json.loads(l) for l in lines]
+    replies = [json.loads(l) for l in lines]
+    for req, rep in zip(requests, replies):
+        _canon_collections(req, rep)
+    return replies
+
+
+def _canon_collections(req, rep):
+    """The tool models report a set / dict as the list of its elements / (key, value) pairs in insertion order
+    (Std.setVal / Std.dictVal); the harness reports the real object order-free (tools.canon_result).  Bring the
+    model's answer into that form, once, where the driver's replies enter the harness."""
+    if not isinstance(req, dict) or req.get("m") != "tool" or req.get("tool") not in ("set", "dict") or not isinstance(rep, dict):
+        return
+    for side in rep.values():
+        if isinstance(side, dict):
+            out = side.get("out")
+            if isinstance(out, list) and len(out) == 2 and out[0] == "returned" and isinstance(out[1], list) and out[1][:1] == ["l"]:
+                elems = out[1][1:]
+                if req["tool"] == "set":
+                    side["out"] = ["returned", ["set"] + sorted(elems)]
+                else:
+                    side["out"] = ["returned", ["dict"] + sorted([e[1], e[2]] for e in elems)]
 
 
 # ---------------------------------------------------------------------------------------------
@@ -263,6 +283,22 @@ def load_corpus(prop):
     return out
 
 
+def source_changes(prop):
+    """definitions of the files this property is anchored in whose AST differs from the recorded baseline"""
+    try:
+        import fingerprint
+        anchors = []
+        for line in (ROOT / "properties.jsonl").read_text().splitlines():
+            if line.strip():
+                d = json.loads(line)
+                if d["id"] == prop:
+                    anchors = d.get("anchors", {}).get("files", [])
+        import world
+        return fingerprint.relevant(fingerprint.changed_definitions(world.REPO), anchors)
+    except Exception as exc:  # the fingerprint layer is advisory: it must never break a check
+        return ["<fingerprint-error: %s>" % exc]
+
+
 def main(argv=None):
     ap = argparse.ArgumentParser()
     ap.add_argument("prop")
@@ -291,7 +327,14 @@ def main(argv=None):
 
     lean = lean_check(prop, args.tier)
     rng = random.Random(seed * 1000003 + sum(map(ord, prop)))
-    cases = load_corpus(prop) + list(mod.cases(args.tier, rng))
+    # source fingerprints: if code this property is anchored in is textually not the code the model was written
+    # from, explore more (the thorough generator, and the failing-input search unconditionally); never an alarm
+    src_changed = source_changes(prop)
+    amplified = bool(src_changed) and args.tier == "quick" and not os.environ.get("VERIF_NO_AMPLIFY")
+    # modules whose thorough generator is too heavy for an every-change run declare AMPLIFY = "search":
+    # they are amplified by their failing-input search only
+    gen_tier = "thorough" if amplified and getattr(mod, "AMPLIFY", "thorough") == "thorough" else args.tier
+    cases = load_corpus(prop) + list(mod.cases(gen_tier, rng))
     observed = observe_all(modname, cases, args.jobs)
     harness_errors = [(c, o) for c, o in zip(cases, observed) if isinstance(o, dict) and "__harness_error__" in o]
     if harness_errors:
@@ -368,7 +411,7 @@ def main(argv=None):
             len(a_breaks), json.dumps(a_breaks[0]["issue"])[:400]))
     if ms_breaks:
         broken.append("model vs spec at run time: %d cases" % len(ms_breaks))
-    if broken and not violations and hasattr(mod, "search_cases"):
+    if (broken or amplified) and not violations and hasattr(mod, "search_cases"):
         extra = list(mod.search_cases([r["case"] for r in a_breaks[:20]], rng))
         searched = len(extra)
         for case, obs in zip(extra, observe_all(modname, extra, args.jobs)):
@@ -430,9 +473,11 @@ def main(argv=None):
             "model_drift_count": len(drift),
             "distribution": dict(sorted(dist.items())),
             "known_findings_hit": sorted(known_hit),
-            "exhaustive": bool(getattr(mod, "EXHAUSTIVE", {}).get(args.tier, False)),
-            "exhaustive_scope": getattr(mod, "SCOPE", {}).get(args.tier, ""),
+            "exhaustive": bool(getattr(mod, "EXHAUSTIVE", {}).get(gen_tier, False)),
+            "exhaustive_scope": getattr(mod, "SCOPE", {}).get(gen_tier, ""),
             "lean_wall_s": round(lean.wall_s, 2),
+            "source_definitions_changed_since_model_validated": src_changed[:40],
+            "amplified_exploration": amplified,
         },
         "assumptions": list(getattr(mod, "ASSUMPTIONS", [])),
         "wall_s": round(time.time() - t0, 2),
